@@ -20,3 +20,19 @@ def bad_plain(k):
 
 def bad_unpicklable(k):
     raise Busy(k)
+
+
+class Stop(BaseException):
+    """An application-defined BaseException subclass (picklable)."""
+
+
+def bad_kind(k, kind):
+    if kind == "ValueError":
+        raise ValueError(k)
+    if kind == "KeyboardInterrupt":
+        raise KeyboardInterrupt(k)
+    if kind == "SystemExit":
+        raise SystemExit(k)
+    if kind == "Stop":
+        raise Stop(k)
+    return k * 3
